@@ -43,6 +43,7 @@ def step (s : ESt) (op impl : String) : ESt × StepOut := Id.run do
     s := { s with closedLocally := true }
     tags := tags ++ ["close:badinitial"]
   if opName == "garbage" && iw.headD "" == "ok" then tags := tags ++ ["garbage"]
+  if opName == "pinginitial" && iw.headD "" == "ok" then tags := tags ++ ["pinginitial"]
   for (isIn, n, hs, tok) in evs do
     if isIn then
       s := { s with w := s.w.step (.inn n) }
